@@ -30,6 +30,12 @@ def scenario(rng):
     import cubed.array_api as xp
     import zarr
 
+    # every scenario has stores of its own: cubed's name counters are restarted so that generated names stay small and can
+    # never reach the names of the user targets below (array-901 / array-902) in a long-running worker
+    import cubed.core.array as _ca
+    import cubed.core.plan as _cp
+    _ca.sym_counter = 0
+    _cp.sym_counter = 0
     trace = Trace()
     mk = lambda: TracingStore(zarr.storage.MemoryStore(), trace)
     kind = rng.choice(["program", "rechunk", "rechunk", "store-existing", "store-sharded", "region-store"])
